@@ -1,6 +1,6 @@
 (* C13/Corr.v — correspondence runner. *)
 From Coq Require Import String List Bool Arith NArith.
-From Verif Require Import Base.Str Base.Run C13.Model C13.Builders C13.Lex.
+From Verif Require Import Base.Str Base.Run C13.Model C13.Builders C13.Lex C13.Extra.
 From VerifGen Require Import C13Tables.
 Import ListNotations.
 Open Scope string_scope.
@@ -14,6 +14,7 @@ Inductive extra := XNone | XInstant (ts : N) (s : string) | XSid (s : string).
 Record case := mk {
   c_x : extra;
   c_b : binfo;              (* abstract arguments of a modelled builder, or BOther *)
+  c_xb : xinfo;             (* the same for the builders of Extra.v (argument-level models), or XBNone *)
   c_tree : option tree;     (* the emitted document (None: the call raised, nothing was emitted) *)
   c_xsd : bool;             (* saml2.xml.schema.validate accepts *)
   c_xsd_ext : bool;         (* the shipped XSDs incl. the extension schemas accept *)
@@ -27,11 +28,13 @@ Record case := mk {
 
 Definition oracle_ok (c : case) : bool := c_xsd c && c_xsd_ext c.
 
+(* the class tables, and what the schema documents add that a builder can get wrong: xs:ID uniqueness, the type an
+   xsi:type names, the choice groups (Extra.doc_ok) *)
 Definition struct_ok (c : case) : bool :=
-  match c_tree c with Some t => valid_doc live_table t | None => true end.
+  match c_tree c with Some t => doc_ok t | None => true end.
 
-Definition shape_agrees (c : case) : bool :=
-  match model_tree (c_b c) with
+Definition shape_agrees1 (m : option (option tree)) (c : case) : bool :=
+  match m with
   | None => true
   | Some None => match c_tree c with None => true | Some _ => false end
   | Some (Some m) =>
@@ -40,6 +43,9 @@ Definition shape_agrees (c : case) : bool :=
       | None => false
       end
   end.
+
+Definition shape_agrees (c : case) : bool :=
+  shape_agrees1 (model_tree (c_b c)) c && shape_agrees1 (xmodel_tree (c_xb c)) c.
 
 Definition sid_shape (s : string) : bool :=
   match s with
@@ -113,8 +119,42 @@ Definition cls_tree (v : vi) (t : tree) : nat :=
        | _ => 0
        end.
 
+(* 8 (repaired by bf274fc5; recognises a regression): do_attributes read a plain two-item value (a list of two
+   values, a str of two characters) as (value, type).  The class is defined on the INPUT: the call has such a value,
+   the implementation's output is exactly what the model of the OLD do_attributes (unpack_v0) computes for it, and
+   that output names a type that does not exist. *)
+Definition cls_misread (c : case) : bool :=
+  match c_xb c, c_tree c with
+  | XBAttributeQuery a specs, Some t =>
+      existsb (fun ks => misread (snd ks)) specs && shape_agrees1 (xmodel_tree_v0 (c_xb c)) c && negb (xsi_ok t)
+  | _, _ => false
+  end.
+
+Definition attr_of (n : qname) (t : tree) : option string :=
+  match find (fun kv => qeqb (fst kv) n) (root_attrs t) with Some kv => Some (snd kv) | None => None end.
+
+(* 9 (repaired by 8ef9e86e; recognises a regression): create_authn_query_response built all its assertions from ONE
+   message_args(): a Response with two or more
+   assertions of exactly that make (Issuer, Subject, AuthnStatement) under one and the same ID *)
+Definition cls_shared_margs (t : tree) : bool :=
+  is_tag SAMLP "Response" t &&
+  let asserts := filter (is_tag SAML "Assertion") (root_kids t) in
+  match asserts with
+  | a1 :: _ :: _ =>
+      forallb (fun a => opt_eqb String.eqb (attr_of (Q "" "ID") a) (attr_of (Q "" "ID") a1)
+                        && list_eqb qeqb (map root_tag (root_kids a)) [Q SAML "Issuer"; Q SAML "Subject"; Q SAML "AuthnStatement"])
+              asserts
+  | _ => false
+  end.
+
 Definition cls (c : case) : nat :=
-  match c_tree c with Some t => cls_tree (c_vi c) t | None => 0 end.
+  match c_tree c with
+  | Some t => match cls_tree (c_vi c) t with
+              | 0 => if cls_misread c then 8 else if cls_shared_margs t then 9 else 0
+              | k => k
+              end
+  | None => 0
+  end.
 
 Definition run := run_cases agrees holds cls.
 
@@ -127,4 +167,8 @@ Definition explain (c : case) :=
                end
    | None => []
    end,
-   match model_tree (c_b c) with Some (Some m) => Some m | _ => None end).
+   match model_tree (c_b c), xmodel_tree (c_xb c) with Some (Some m), _ => Some m | _, Some (Some m) => Some m | _, _ => None end,
+   match c_tree c with
+   | Some t => (valid_doc live_table t, ids_unique live_table live_ids t, xsi_ok t, choices_ok live_table choice_rules t)
+   | None => (true, true, true, true)
+   end).
